@@ -11,7 +11,7 @@ correspondence: the name list the real `_used_auto_styles` ends with (captured f
 oracle:         save() the document, parse content.xml / styles.xml with expat, resolve every style
                 reference site (every attribute of the schema list) against the styles present in its own
                 part; each written automatic style compared (infoset) with the in-memory element; at most
-                once per part.  Independent of the model.
+                once per part; no written automatic style that nothing in its part refers to.  Independent of the model.
 """
 import io, zipfile, json, re
 import xml.parsers.expat
@@ -417,7 +417,8 @@ def oracle(doc, T):
                 common_names.add(attr_of(s, STYLE_NAME))
     fails = []
     sites = 0
-    stats = {'auto_ref_resolved': 0, 'auto_ref_dangling': 0, 'styles_written': 0, 'shared_name_definitions_checked': 0}
+    stats = {'auto_ref_resolved': 0, 'auto_ref_dangling': 0, 'styles_written': 0, 'shared_name_definitions_checked': 0,
+             'unreferenced_written': 0}
     for pname in ('content.xml', 'styles.xml'):
         root = parts[pname]
         auto = child(root, (NS['office'], 'automatic-styles'))
@@ -437,6 +438,35 @@ def oracle(doc, T):
                                   % (pname, s[0][1], nm)))
         wset = set(wnames)
         stats['styles_written'] += len(written)
+        # nothing unreferenced: a written automatic style must be reachable from the part's own seeds (content.xml: body
+        # and the common styles; styles.xml: the master styles), directly or through written automatic styles
+        def names_in(tree):
+            for e in walk(tree):
+                for k, v in e[1]:
+                    if k in schema and v:
+                        for name in ([x for x in XML_SPACE.split(v) if x] if k in listy else [v]):
+                            yield name
+        if pname == 'content.xml':
+            seeds = [t for t in root[2] if isinstance(t, tuple) and t[0] != (NS['office'], 'automatic-styles')]
+            if common_part is not None:
+                seeds.append(common_part)
+        else:
+            seeds = [t for t in root[2] if isinstance(t, tuple) and t[0] == (NS['office'], 'master-styles')]
+        reach = set()
+        for t in seeds:
+            reach.update(names_in(t))
+        expanded = set()
+        grown = True
+        while grown:
+            grown = False
+            for i, (w, nm) in enumerate(zip(written, wnames)):
+                if i not in expanded and nm in reach:
+                    expanded.add(i); reach.update(names_in(w)); grown = True
+        for i, (w, nm) in enumerate(zip(written, wnames)):
+            if i not in expanded:
+                stats['unreferenced_written'] += 1
+                fails.append(('unreferenced-style-written', '%s writes automatic style <%s style:name=%r> although nothing that is '
+                              'written to this part refers to it (only unused automatic styles do, or nothing)' % (pname, w[0][1], nm)))
         for top in root[2]:
             if not isinstance(top, tuple):
                 continue
